@@ -375,13 +375,16 @@ func (p *Parser) collectSpecs(
 	retrieved *retrievedList,
 	maxImportDepth, currentImportDepth int,
 ) error {
+	verifEnter(source.filename, currentImportDepth)
 	if maxImportDepth > 0 && currentImportDepth >= maxImportDepth {
+		verifClaim("cut", source.filename, "", currentImportDepth)
 		return nil
 	}
 
 	filenameIndex := fileNameToIndex(source.filename)
 	retrieved.mutex.Lock()
 	if fi, has := retrieved.l[filenameIndex]; has {
+		verifClaim("dup", source.filename, string(filenameIndex), currentImportDepth)
 		retrieved.mutex.Unlock()
 
 		if !p.NoDifferentVersionCheck {
@@ -427,6 +430,7 @@ func (p *Parser) collectSpecs(
 	fi := &fileInfo{}
 	fi.src.src = source
 	retrieved.l[filenameIndex] = fi
+	verifClaim("claimed", source.filename, string(filenameIndex), currentImportDepth)
 	retrieved.mutex.Unlock()
 
 	content, hash, branch, err := reader.ReadHashBranch(ctx, source.filename)
